@@ -56,7 +56,7 @@ pub fn check_case(case: &Case, only_k: Option<usize>) -> Out {
         Err(_) => return out,
     };
     let data = Rc::new(case.input.0.clone());
-    let base = run_delta(RunParams { config: &config, data: data.clone(), rschedule: vec![], wplan: case.wplan.clone(), fail_at: None, fail_kind: std::io::ErrorKind::BrokenPipe, keep_output: true, record_quiescence: false });
+    let base = run_delta(RunParams { config: &config, data: data.clone(), rschedule: vec![], rdelays_ms: vec![], wplan: case.wplan.clone(), fail_at: None, fail_kind: std::io::ErrorKind::BrokenPipe, keep_output: true, record_quiescence: false });
     out.runs += 1;
     if !matches!(base.result, Ok(Ok(()))) {
         return out;
@@ -69,7 +69,7 @@ pub fn check_case(case: &Case, only_k: Option<usize>) -> Out {
         None => (0..n).collect(),
     };
     for k in ks {
-        let r = run_delta(RunParams { config: &config, data: data.clone(), rschedule: vec![], wplan: case.wplan.clone(), fail_at: Some(k), fail_kind: std::io::ErrorKind::BrokenPipe, keep_output: true, record_quiescence: false });
+        let r = run_delta(RunParams { config: &config, data: data.clone(), rschedule: vec![], rdelays_ms: vec![], wplan: case.wplan.clone(), fail_at: Some(k), fail_kind: std::io::ErrorKind::BrokenPipe, keep_output: true, record_quiescence: false });
         out.runs += 1;
         let sig = |o: &str| format!("e2:{}:{}", case.kind, o);
         match &r.result {
